@@ -147,6 +147,21 @@ example : ∀ dbg : Bool,
       = .ok ([⟨0, .array [1, 2, 70]⟩, ⟨3, .array [0, 65535]⟩], []) := by
   decide +kernel
 
+/-! ### `Serialize` over the encoder the driver executes (fidelity audit) -/
+
+/-- **mirror.** With the exact `u64` arithmetic of the cardinality field (`Bitmap.serializeM`), `Serialize` on a
+    well-formed value does not panic in either build configuration and emits the same single event. -/
+theorem C19_events_mirror (ovf : Bool) (b : Bitmap) (h : Bitmap.WF b) : serEventsM ovf b = some (serEvents b) := by
+  unfold serEventsM serEventsOfM
+  rw [C05.C05_serialize_mirror_eq ovf b h]; rfl
+
+/-- **format round trip for the executed `Serialize`** -/
+theorem C19_rt_mirror (ovf dbg : Bool) (b : Bitmap) (h : Bitmap.WF b) :
+    ∃ bs, serEventsM ovf b = some [Event.bytes bs] ∧ visit dbg (.bytes bs) = .ok b ∧ visit dbg (.seq bs) = .ok b := by
+  refine ⟨Bitmap.serialize b, by rw [C19_events_mirror ovf b h]; rfl, ?_⟩
+  have := C19_rt dbg b h
+  simpa only [C19_events] using this
+
 end Roaring.C19
 
 /-!
@@ -210,5 +225,16 @@ example : Treemap.WFd Bitmap.WF [(0, [⟨0, .array [1, 2, 70]⟩]), (4294967295,
   intro p hp
   simp only [List.mem_cons, List.not_mem_nil, or_false] at hp
   rcases hp with rfl | rfl <;> refine ⟨by decide, BitmapWF.toWF ?_, by simp⟩ <;> simp [BitmapWF, StoreWF]
+
+/-- **mirror (64-bit).** -/
+theorem C19_t_events_mirror (ovf : Bool) (t : Treemap) (h : Treemap.WFd Bitmap.WF t) :
+    tserEventsM ovf t = some (tserEvents t) := by
+  unfold tserEventsM serEventsOfM
+  rw [C05.C05_t_serialize_mirror_eq ovf t h]; rfl
+
+theorem C19_t_rt_mirror (ovf dbg : Bool) (t : Treemap) (h : Treemap.WFd Bitmap.WF t) :
+    ∃ bs, tserEventsM ovf t = some [Event.bytes bs] ∧ tvisit dbg (.bytes bs) = .ok t ∧ tvisit dbg (.seq bs) = .ok t :=
+  ⟨Treemap.serialize t, by rw [C19_t_events_mirror ovf t h]; rfl,
+   C19_t_visit_roundtrip dbg t h (.bytes _) rfl, C19_t_visit_roundtrip dbg t h (.seq _) rfl⟩
 
 end Roaring.C19
